@@ -1165,10 +1165,10 @@ func (g *Gtp5g) CreateURR(lSeid uint64, req *ie.IE) error {
 			if measurePeriod <= 0 {
 				return errors.New("invalid measurement period")
 			}
-			// TODO: convert time.Duration -> ?
+			// the IE and the gtp5g attribute both carry the period in seconds
 			attrs = append(attrs, nl.Attr{
 				Type:  gtp5gnl.URR_MEASUREMENT_PERIOD,
-				Value: nl.AttrU32(measurePeriod),
+				Value: nl.AttrU32(measurePeriod / time.Second),
 			})
 		case ie.MeasurementInformation:
 			v, err := i.MeasurementInformation()
@@ -1256,10 +1256,10 @@ func (g *Gtp5g) UpdateURR(lSeid uint64, req *ie.IE) ([]report.USAReport, error) 
 			if err1 != nil {
 				return nil, err1
 			}
-			// TODO: convert time.Duration -> ?
+			// the IE and the gtp5g attribute both carry the period in seconds
 			attrs = append(attrs, nl.Attr{
 				Type:  gtp5gnl.URR_MEASUREMENT_PERIOD,
-				Value: nl.AttrU32(v),
+				Value: nl.AttrU32(v / time.Second),
 			})
 		case ie.MeasurementInformation:
 			v, err1 := i.MeasurementInformation()
